@@ -13,32 +13,42 @@ from mc.props.c03 import same_node, same_value, shape
 from valida.datapath import DataPath
 
 META = {
-    "rule": "every path (length bound) over the 40-part alphabet + 6 labelled parts, built by the API and by part "
+    "rule": "every path (length bound) over the 42-part alphabet + 6 labelled parts + 4 parts with path-like literal / data-path arguments, built by the API and by part "
             "specs; a case is one (path, construction) pair serialised with to_part_specs and to_json_like, rebuilt "
             "and compared on every document of the family; non-trivial = serialisation returned (did not refuse) "
             "and the rebuilt path was compared on all documents",
     "assumptions": ["refusing (raising) is allowed by the statement; refusals are counted separately so that "
                     "'refuses everything' would show as distinct_nontrivial = 0",
                     "JSON-compatible = json.dumps succeeds (a tuple argument is accepted here, unlike in C11)"],
-    "bounds": {"quick": {"paths": "length<=1 over 46 parts + length 2 over 12 parts", "documents": "F-struct(3) + F-type"},
-               "thorough": {"paths": "length<=2 over 46 parts", "documents": "F-struct(4) + F-type"}},
+    "bounds": {"quick": {"paths": "length<=1 over 48 parts + length 2 over 12 parts", "documents": "F-struct(3) + F-type"},
+               "thorough": {"paths": "length<=2 over 48 parts", "documents": "F-struct(4) + F-type"}},
 }
 
 LABELLED = [
     ("map", ("lit", "a"), None, "L"), ("list", None, None, "L"), ("mol", None, ("lit", 0), None, "L"),
     ("map", None, gen.V_DICT, "lab"), ("mol", ("lit", 1), ("lit", 1), None, "L"), ("map", None, None, "M"),
 ]
-PARTS = gen.PARTS + LABELLED
+PATHLIKE_PARTS = [
+    ("list", None, T.leaf("Value", "equal_to", {"Path": ["a", "b"]}), None),
+    ("map", None, T.leaf("Value", "in_", [{"path": ["b"]}, 1]), None),
+    ("mol", None, None, T.leaf("Value", "not_equal_to", {"path.length": ["a"]}), None),
+    ("map", T.leaf("Key", "equal_to", ("$path", T.path((("prim", "k"),)))), None, None),
+]
+PARTS = gen.PARTS + LABELLED + PATHLIKE_PARTS
+PATHLIKE_DOCS = [
+    [{"Path": ["a", "b"]}, 1, {"path": ["b"]}, {"path.length": ["a"]}, ["a", "b"], 2],
+    {"a": {"Path": ["a", "b"]}, "b": {"path": ["b"]}, "c": 1, "d": {"path.length": ["a"]}, "k": "a"},
+]
 
 
 def path_list(tier):
     if tier == "quick":
-        return list(gen.paths(1, PARTS)) + [p for p in gen.paths(2, gen.PARTS12 + LABELLED[:2]) if len(p[1]) == 2]
+        return list(gen.paths(1, PARTS)) + [p for p in gen.paths(2, gen.PARTS12X + LABELLED[:2] + PATHLIKE_PARTS[:2]) if len(p[1]) == 2]
     return list(gen.paths(2, PARTS))
 
 
 def family(tier):
-    return (gen.docs_struct(3) if tier == "quick" else gen.docs_struct(4)) + gen.docs_type2() + gen.docs_deep()
+    return (gen.docs_struct(3) if tier == "quick" else gen.docs_struct(4)) + gen.docs_type2() + gen.docs_deep() + PATHLIKE_DOCS
 
 
 _pl = {}
